@@ -503,16 +503,21 @@ func runC10(r *engine.Run) {
 					in[q] ^= 0xA5
 				}
 			}
+			f := t.fresh()
+			freshErr := t.decode(f, append([]byte(nil), last...))
+			if (lastErr == nil) != (freshErr == nil) {
+				var hs []string
+				for _, h := range hist {
+					hs = append(hs, fmt.Sprintf("%x", h))
+				}
+				c.Fail("reuse/"+t.name+"/acceptance-depends-on-history", fmt.Sprintf("%s: after decoding %v into one value the last decode answers err=%v; a fresh value decoding %x alone answers err=%v", t.name, hs, lastErr, last, freshErr), nil)
+				return
+			}
 			if lastErr != nil {
 				c.Outcome("reuse/last-decode-failed")
 				return
 			}
 			c.NonTrivial()
-			f := t.fresh()
-			if err := t.decode(f, append([]byte(nil), last...)); err != nil {
-				c.Fail("harness/fresh-decode-differs", fmt.Sprintf("%s: %x decodes into a used value but not into a fresh one: %v", t.name, last, err), nil)
-				return
-			}
 			if got, want := deepPrint(v), deepPrint(f); got != want {
 				var hs []string
 				for _, h := range hist {
